@@ -88,6 +88,7 @@ class Walker(object):
         os.makedirs(self.killdir, exist_ok=True)
         self.killpath = os.path.join(self.killdir, "j")
         self.points = set()
+        self.samples = []
         self.d15_example = None
 
     # -- reporting ---------------------------------------------------------------------------------
@@ -278,6 +279,10 @@ class Walker(object):
                             if mnp != str(np_):
                                 self.disagree("number of primitives of the op", r0[:200], "np=%d %s" % (np_, lib.prims_str(prims, jm)),
                                               {"pre": list(pre), "op": op})
+                        if case.get("name") in ("delto-2", "delfrom-back25", "timer-replace") and len(self.samples) < 3:
+                            self.samples.append({"name": case["name"], "entries_before": len(old), "op": op,
+                                                 "primitives": lib.prims_str(prims, jm),
+                                                 "crash_points": "k=0..%d, every sampled t really killed and reopened" % np_})
                         for k in range(np_ + 1):
                             L = lib.prim_len(prims[k]) if k < np_ else 0
                             for t in t_values(L, rng, case.get("all_t", False)):
@@ -367,10 +372,7 @@ def run(ctx):
     cov["crash_points"] = len(w.points)
     if w.d15_example:
         out["notes"] = "known D15 (reported by witness.d15_journal_headdrop_kill), first loss seen here: " + w.d15_example
-    out["samples"] = [{"pre": "5 small adds", "op": ["delto", 2], "crash_points": "k=0..11, all t",
-                       "agreed_with_model": not out["disagreements"]},
-                      {"pre": "30 small adds", "op": ["delfrom", 5], "primitives": "S36 after 10 and 20 removed records, final S36",
-                       "agreed_with_model": not out["disagreements"]}]
+    out["samples"] = w.samples
     out["coverage"] = dict(sorted(cov.items()))
     out["wall_s"] = round(time.time() - t0, 2)
     floors = [("points.add", 100), ("points.clear", 4), ("points.delfrom", 20), ("points.delto", 50), ("points.timer", 10),
